@@ -1628,7 +1628,8 @@ def h_max(func, args, kwargs):
             raise UnsupportedOp('amax over several dims')
         flat_i = ids.reshape(-1)
         flat_v = v.reshape(-1)
-        k = int(torch.argmax(flat_v) if ismax else torch.argmin(flat_v))
+        dv = vals_from_ids(flat_i)  # decide on the DAG's witness values: consistent with the recorded conditions
+        k = int(torch.argmax(dv) if ismax else torch.argmin(dv))
         w = int(flat_i[k])
         for j, o in enumerate(flat_i.tolist()):
             if j != k:
@@ -1636,7 +1637,7 @@ def h_max(func, args, kwargs):
         if name in ('argmax', 'argmin'):
             return _real_tensor(k)
         return wrap(flat_v[k].clone(), flat_i[k].clone(), name, x._rg)
-    idx = (torch.argmax if ismax else torch.argmin)(v, dim=dim, keepdim=True)
+    idx = (torch.argmax if ismax else torch.argmin)(vals_from_ids(ids), dim=dim, keepdim=True)
     wid = torch.gather(ids, dim, idx)
     wv = torch.gather(v, dim, idx)
     # path conditions: winner >= every element along dim
